@@ -16,6 +16,17 @@ CHECKS = {
                  "suite (305 symbols, literal spot values) cannot; float rounding is bounded only syntactically (homogeneous rows).",
         "note": NOTE,
     },
+    "C05": {
+        "technique": "CFG dominance / must-raise / must-pass-through queries on the rejecting guards; guarded-selection analysis of GetInfo "
+                     "(origin + unit fact + quantity-type fact per returned value, from dominating equality tests); transitive write-effect "
+                     "summaries; provenance call-site obligations of the unit-matching helper",
+        "level": "Every path, for all operand pairs: after a composing-unit mismatch only the dimensionless exemption continues, all else "
+                 "must-raise InvalidOperationError; GetInfo can only return an info selected under both a unit-equality and a quantity-type "
+                 "fact (Unknown exempt), so cross-type conversion raises; CheckCategoryUnit cannot exit normally without a positive verdict; "
+                 "a simple Quantity stores a unit only after the category check accepted it; ordering across quantity types must-raises "
+                 "TypeError; the entry points write no registry state and no sink reaches an operand's composing map, so failures change nothing.",
+        "note": NOTE,
+    },
     "C06": {
         "technique": "table lint over the interpreted registration log: unit-symbol grammar decomposition, dimension-vector gate, "
                      "exact rational factor algebra, per-quantity-type agreement classes; SI-prefix lint by symbol and name",
